@@ -543,6 +543,14 @@ def str_method(E, st, s, meth, args, kwargs):
         if a.kind.tag != "str":
             return [E.raise_(st, "TypeError", "find")]
         return ok(st, V(INT, z3.IndexOf(x, a.t, 0)))
+    if meth == "lstrip" and len(args) == 1 and args[0].kind.tag == "str" and _const_str(args[0].t) is not None \
+            and len(_const_str(args[0].t)) == 1:
+        # exact: x == c* + r and r does not start with c
+        c = z3.StringVal(_const_str(args[0].t))
+        r = z3.String(fresh_name("lstripped"))
+        pre = z3.String(fresh_name("stripped"))
+        ax = z3.And(x == z3.Concat(pre, r), z3.InRe(pre, z3.Star(z3.Re(c))), z3.Not(z3.PrefixOf(c, r)))
+        return ok(st.assume(ax), V(STR, r))
     if meth == "lower" or meth == "upper" or meth == "title" or meth == "strip" or meth == "lstrip":
         if meth in ("strip", "lstrip") and args:
             raise Unsupported("strip with chars")
